@@ -45,6 +45,7 @@ type Profile struct {
 	BadUTF8      bool   // some results carry bytes that are not valid UTF-8
 	Refresh      bool   // nodes that render twice (… HALT; RELOAD …; HALT; INCMP …)
 	SizeFlip     bool   // a sink symbol is loaded under a size limit in some nodes
+	EndAfterInput bool  // end nodes of the shape HALT; INCMP t 1; HALT
 	ManySyms     bool   // up to 28 external symbols, nodes that load up to 20 of them
 	Unicode      bool   // multi-byte UTF-8 in labels, translations, static template text and padded values
 	StaticSyms   bool   // some external symbols are static-load symbols with per-language entries
@@ -459,6 +460,11 @@ func Generate(t *tape.Tape, p Profile) *App {
 			// no HALT
 		case KEndGraceful:
 			code = append(code, Inst{Op: HALT})
+			if p.EndAfterInput && t.Chance(1, 2) {
+				// "anything else says goodbye": one selector leads on, every other input falls through to a
+				// second HALT behind which nothing is left - the session ends while input was being handled
+				code = append(code, Inst{Op: INCMP, A: postTarget(i, false), B: "1"}, Inst{Op: HALT})
+			}
 		case KInput:
 			code = append(code, Inst{Op: HALT})
 			for _, s := range loaded {
